@@ -146,7 +146,13 @@ class Gen:
 
                 ops.append(["group", gid, children, self.body(depth + 1, groups + [gid])])
             elif k == "spawn":
-                ops.append(["spawn", rng.choice(groups), self.child(depth + 1, groups, no_start=True)])
+                # mostly into an enclosing group; sometimes into ANY group of the program
+                # (a non-member spawning, possibly while that group is draining / gone)
+                tgt = rng.choice(groups)
+                if self.ngroup and rng.random() < 0.2:
+                    tgt = rng.randint(1, self.ngroup)
+
+                ops.append(["spawn", tgt, self.child(depth + 1, groups, no_start=True)])
             elif k == "cancel":
                 target = rng.choice(self.sids) if self.sids and rng.random() < 0.8 else (
                     f"g{groups[-1]}" if groups else "ROOT")  # fmt: skip
